@@ -57,7 +57,7 @@ const (
 type Fault struct {
 	K    int    `json:"k"`    // 1-based index among galaxy-ipam's API calls since the fault was armed
 	Mode string `json:"mode"` // error | crash_before | crash_after
-	Err  string `json:"err"`  // internal | notfound | conflict | timeout
+	Err  string `json:"err"`  // internal | notfound | conflict | timeout | exists (AlreadyExists on creates, internal otherwise)
 }
 
 // APICall is one traced API-server call of galaxy-ipam.
@@ -432,6 +432,11 @@ func (w *World) errFor(kind string, action k8stesting.Action) error {
 		return apierrors.NewConflict(gr, "injected", fmt.Errorf("injected conflict"))
 	case "timeout":
 		return apierrors.NewServerTimeout(gr, action.GetVerb(), 1)
+	case "exists":
+		// (what a create answers when somebody else created the object first, e.g. an administrator's reservation not yet seen)
+		if action.GetVerb() == "create" {
+			return apierrors.NewAlreadyExists(gr, "injected")
+		}
 	}
 	return apierrors.NewInternalError(fmt.Errorf("injected internal error"))
 }
